@@ -61,6 +61,22 @@ def stmt_text(node, limit=160):
     return s[:limit]
 
 
+def anon_locals(func, text):
+    """`text` with the names of the function's local variables (not its parameters) replaced by '?': a construct key that
+    survives renaming of locals and insertion of unrelated locals, while staying pinned to the construct's shape."""
+    import re
+    node = func.node
+    params = set(func.params)
+    if node.args.vararg:
+        params.add(node.args.vararg.arg)
+    if node.args.kwarg:
+        params.add(node.args.kwarg.arg)
+    local = {n.id for n in ast.walk(node) if isinstance(n, ast.Name) and isinstance(n.ctx, ast.Store)} - params
+    if not local:
+        return text
+    return re.sub(r"(?<![\w.])(" + "|".join(sorted(map(re.escape, local), key=len, reverse=True)) + r")(?!\w)", "?", text)
+
+
 def expr_text(node, limit=160):
     s = " ".join(ast.unparse(node).split())
     return s[:limit]
